@@ -55,9 +55,13 @@ func (a *ConstFuncParamAnnotator) VisitFuncDecl(decl *ast.FuncDecl) ast.VisitRes
 	if ast.IsGeneric(decl) {
 		for _, instantiations := range decl.Generic.Instantiations {
 			for _, instantiation := range instantiations {
-				a.VisitFuncDecl(instantiation)
+				// the body of an instantiation is not reachable from the statements of any module
+				if a.VisitFuncDecl(instantiation) == ast.VisitRecurse {
+					ast.VisitNode(a, instantiation.Body, nil)
+				}
 			}
 		}
+		a.currentDecl = nil
 		return ast.VisitRecurse
 	}
 
@@ -69,7 +73,7 @@ func (a *ConstFuncParamAnnotator) VisitFuncDecl(decl *ast.FuncDecl) ast.VisitRes
 		for _, param := range decl.Parameters {
 			attachement.IsConst[param.Name.Literal] = false
 		}
-		a.CurrentModule.Ast.AddAttachement(decl, attachement)
+		decl.Module().Ast.AddAttachement(decl, attachement)
 		return ast.VisitSkipChildren
 	}
 
@@ -90,7 +94,7 @@ func (a *ConstFuncParamAnnotator) VisitFuncDecl(decl *ast.FuncDecl) ast.VisitRes
 			attachement.IsConst[funcParam.Name.Literal] = true
 		}
 	}
-	a.CurrentModule.Ast.AddAttachement(decl, attachement)
+	decl.Module().Ast.AddAttachement(decl, attachement)
 	a.currentDecl = decl
 
 	return ast.VisitRecurse
@@ -167,12 +171,12 @@ func (a *ConstFuncParamAnnotator) overwriteAttachement() {
 		IsConst: make(map[string]bool, len(a.currentParams)),
 	}
 	// overwrite the attachement
-	if att, ok := a.CurrentModule.Ast.GetMetadataByKind(a.currentDecl, ConstFuncParamMetaKind); ok {
+	if att, ok := a.currentDecl.Module().Ast.GetMetadataByKind(a.currentDecl, ConstFuncParamMetaKind); ok {
 		attachement = att.(ConstFuncParamMeta)
 	}
 
 	for param := range a.currentParams {
 		attachement.IsConst[param.Name()] = a.currentParams[param]
 	}
-	a.CurrentModule.Ast.AddAttachement(a.currentDecl, attachement)
+	a.currentDecl.Module().Ast.AddAttachement(a.currentDecl, attachement)
 }
